@@ -238,6 +238,7 @@ func (g *Gen) Step() bool {
 			choice{g.wt("throtburst"), func() { g.opThrottleBurst(conns) }},
 			choice{g.wt("gcburst"), func() { g.opGCBurst(conns) }},
 			choice{g.wt("aliasburst") * boolInt(len(g.qnames) > 0), func() { g.opAliasBurst(conns) }},
+			choice{g.wt("qburst") * boolInt(len(g.qnames) > 0), func() { g.opQBurst() }},
 			choice{g.wt("hostilereq"), func() { g.opHostileReq(conns) }},
 		)
 	}
@@ -811,6 +812,21 @@ func (g *Gen) opThrottleBurst(conns []*Client) {
 	}
 }
 
+// opQBurst: events held behind consecutive query events of one resource name:
+// query event, custom events, another query event, more custom events - the
+// query requests stay outstanding, so the later entries queue up behind the
+// lock and the second query event re-locks from the middle of a batch.
+func (g *Gen) opQBurst() {
+	name := g.sample("qbname", g.qnames)
+	for round := 0; round < 2; round++ {
+		g.w.Exec(Op{K: "qevent", S: name})
+		n := rapid.IntRange(1, 2).Draw(g.t, "qbn")
+		for i := 0; i < n; i++ {
+			g.w.Exec(Op{K: "custom", S: name, M: "custom"})
+		}
+	}
+}
+
 // opAliasBurst: two raw queries that the service normalises to the same query
 // are subscribed with both gets in flight; the second one is answered first
 // (which loads the shared resource), then the first one - successfully, with an
@@ -868,6 +884,17 @@ func (g *Gen) opAliasBurst(conns []*Client) {
 		}
 	}
 	answer(raws[j], true)
+	if rapid.Bool().Draw(g.t, "abqevent") {
+		// a query event, answered, while the first get is still outstanding
+		norm := d.QueryMap[raws[i]]
+		g.mutate("silent", name, norm)
+		g.w.Exec(Op{K: "qevent", S: name})
+		for _, pv := range g.w.PendingSorted() {
+			if strings.HasPrefix(pv.P.Subject, "_EVQ.") && g.w.qevSubjects[pv.P.Subject] == name {
+				g.w.Exec(Op{K: "ans", S: pv.P.Subject, Q: pv.P.Query, A: actorEnc(pv.Actor), N: pv.Ord, O: "ok"})
+			}
+		}
+	}
 	answer(raws[i], false)
 }
 
@@ -1025,6 +1052,15 @@ func (g *Gen) opRefBurst(conns []*Client) {
 			g.mutate("mut", on, "")
 		} else {
 			g.w.Exec(Op{K: "custom", S: on, M: "custom"})
+		}
+	}
+	// the holder is released while the event that added the reference may still
+	// be waiting for the target
+	if rapid.IntRange(0, 3).Draw(g.t, "rbrelease") == 0 {
+		if n := c.Ref.Direct[holder]; n > 1 {
+			g.w.Exec(Op{K: "creq", C: c.Idx, ID: g.nextID(c), M: "unsubscribe." + holder, P: fmt.Sprintf(`{"count":%d}`, n)})
+		} else if n == 1 {
+			g.w.Exec(Op{K: "creq", C: c.Idx, ID: g.nextID(c), M: "unsubscribe." + holder})
 		}
 	}
 }
